@@ -12,7 +12,9 @@ Definition C13_statement : Prop :=
       fst (y_run ops env0 host) = fst (g_run ops env0 host) /\ snd (y_run ops env0 host) = host)
   /\ (forall f p, In p forbidden -> y_import_ok (t_keys live) no_src f p = false)
   /\ (forall e, In e exit_catalogue -> y_exit live e = g_exit e)
-  /\ (forall f, In f io_catalogue -> y_sink live f = g_sink f).
+  /\ (forall f, In f io_catalogue -> y_sink live f = g_sink f)
+  /\ (forall rows g ops, y_houts true rows (hinit g) ops = g_houts rows g [] ops
+                         /\ glob (y_hrun true rows (hinit g) ops) = g).
 
 (* ------------------------------------------------------------------ environment *)
 
@@ -190,3 +192,37 @@ Theorem C13_io_refuted :
   /\ y_sink snapshot (IOName (s "flag") (s "CommandLine")) = OptStderr.
 Proof. exact io_refuted_snapshot. Qed.
 Print Assumptions C13_io_refuted.
+
+(* ------------------------------------------------------------------ several interpreters in one process *)
+
+(** Every global symbol table, every list of fixStdlib rows, every interleaving of New / Use /
+    script compilations of any number of interpreters (restricted or not, any symbol sets): a script
+    of interpreter i resolves every name to what it would resolve if i were the only interpreter of
+    the process (its own overrides, bound to its own Options), and the global table (stdlib.Symbols,
+    unrestricted.Symbols ...) is never modified. Unbounded: induction on the operation list. *)
+Theorem C13_use_isolated_full :
+  forall rows g ops,
+    y_houts true rows (hinit g) ops = g_houts rows g [] ops
+    /\ glob (y_hrun true rows (hinit g) ops) = g.
+Proof. exact use_isolated. Qed.
+Print Assumptions C13_use_isolated_full.
+
+(** The copying mode is the one of the source: Use stores a fresh map and copies entry by entry
+    (regenerated from interp/use.go). *)
+Theorem C13_use_copies : use_copies = true.
+Proof. exact use_copies_live. Qed.
+Print Assumptions C13_use_copies.
+
+(** Non-vacuity on the regenerated rows (A, unrestricted B loading the unrestricted set, then a
+    restricted C): copying gives each interpreter its own streams and C a panicking os.Exit; the
+    aliasing mode (binPkg adopts the caller's map) sends A's output to B, hands C the real os.Exit
+    and modifies the global table. *)
+Theorem C13_use_isolated_inhabited :
+  map (obs_of live) (y_houts true (t_fix live) (hinit live_gtable) iso_ops)
+    = [ROwner 1; ROwner 1; RPanics; ROwner 3; RExits; RHost]
+  /\ map (obs_of live) (y_houts false (t_fix live) (hinit live_gtable) iso_ops)
+    = [ROwner 2; ROwner 1; RExits; ROwner 3; RExits; ROwner 3]
+  /\ gtable_eqb (glob (y_hrun false (t_fix live) (hinit live_gtable) iso_ops)) live_gtable = false
+  /\ gtable_eqb (glob (y_hrun true (t_fix live) (hinit live_gtable) iso_ops)) live_gtable = true.
+Proof. exact iso_example. Qed.
+Print Assumptions C13_use_isolated_inhabited.
